@@ -30,6 +30,8 @@ JudgeCL(rec) ==
           <<rec.full.ok => EntriesMatch(rec.full.entries, es), "entries differ from what is written in the changelog">>,
           <<\A c \in 0..Len(b) : CutClass(b, ends, c) # "inside-entry" \/ ~rec.cuts[c + 1].ok,
             "input ending inside an entry gave a silently shortened list">>,
+          <<\A c \in 1..Len(rec.faults) : ~rec.faults[c].panic /\ (rec.faults[c].ok => rec.faults[c].n >= n),
+            "a source that fails with an I/O error gave a silently shortened list">>,
           <<bad = {}, "a prefix of the changelog parsed to the wrong number of entries">>,
           <<prefixSame, "entries returned for a prefix differ from those of the full text">>,
           <<stepsOK, "repeated ParseOne does not deliver each entry and then end of input">> >>)
